@@ -102,6 +102,14 @@ fn run(case: &Value) -> Value {
             Err(e) => e,
             Ok((_, out)) => out,
         },
+        // a value the markup formats cannot express: built directly
+        "lef_some_unsupported" => {
+            let mut lib = lef21::LefLibrary::new();
+            lib.layers = Some(lef21::Unsupported);
+            let j = trip(&lib, SerializationFormat::Json, "json", true);
+            let y = trip(&lib, SerializationFormat::Yaml, "yaml", true);
+            json!({"json": j, "yaml": y})
+        }
         _ => json!({"harness_error": "bad ty"}),
     }
 }
